@@ -104,6 +104,9 @@ var (
 	// Stats / fault injection for the harness.
 	NOpen, NClose, NKeventCalls int
 	FailOpen                    func(path string) error
+	// FailAdds makes the next FailAdds EV_ADD registrations of vnode filters
+	// fail with ENOMEM (fault injection: kevent(2) can fail after open(2) succeeded).
+	FailAdds int
 )
 
 // Reset forgets all simulated state (descriptors that are still open are
@@ -120,6 +123,7 @@ func Reset() {
 	hold = false
 	NOpen, NClose, NKeventCalls = 0, 0, 0
 	FailOpen = nil
+	FailAdds = 0
 	cond.Broadcast()
 }
 
@@ -257,6 +261,10 @@ func Kevent(kq int, changes, events []Kevent_t, timeout *Timespec) (int, error) 
 			e := fds[int(c.Ident)]
 			if e == nil {
 				return -1, syscall.EBADF
+			}
+			if c.Filter == EVFILT_VNODE && FailAdds > 0 {
+				FailAdds--
+				return -1, syscall.ENOMEM
 			}
 			kn := knotes[key]
 			if kn == nil {
@@ -423,3 +431,6 @@ func KnoteCount() int {
 	}
 	return n
 }
+
+// SetFailAdds arms the registration fault (under the simulator's lock).
+func SetFailAdds(n int) { mu.Lock(); FailAdds = n; mu.Unlock() }
